@@ -43,6 +43,11 @@ def run(rep, tier, seed):
                 'depth>=1 or a tag stack; distinct by canonical (type,value)')
     rep.assumptions = ['text codecs trusted', 'decimal REAL not generated here (goes through CPython float)',
                        'values the object model cannot hold (build->abstract not the identity) are skipped and counted']
+    # the octet kernels of INTEGER and OBJECT IDENTIFIER are translated from the source on every run; source_oid_roundtrip /
+    # source_integer_roundtrip are about those translations, which are compared with the code here
+    from harness import kernels
+    kernels.obligations(rep, ['toBytes', 'oidEncode', 'oidDecode'])
+    kernels.check(rep, drv, seed, 150 if tier == 'quick' else 4000, which=('toBytes', 'oidEncode', 'oidDecode'))
     # corpus first
     for ts, vs, dm, ch in CORPUS:
         t = gen_ty(ts)
